@@ -2,6 +2,7 @@
 //@include head.rs
 //@import sma.rs.tpl
 //@import wma.rs.tpl
+//@export-begin
 
 // ------------------------------------------------------------------ TRIMA = SMA(SMA(x))
 //@extract src/methods/trima.rs struct:TRIMA
@@ -111,5 +112,6 @@ pub proof fn trima_const_step(pre: TRIMA, v: R, post: TRIMA, out: R)
 	lemma_sum_konst(n2, v);
 	assert((n2 as real * v@ - v@ + v@) / (n2 as real) == v@) by(nonlinear_arith) requires n2 >= 1;
 }
+//@export-end
 } // verus!
 fn main() {}
